@@ -51,7 +51,7 @@ func init() {
 		RequiredObs: []string{"clean_runs", "weight_calls", "fault_runs:permanent", "fault_runs:transient", "fault_runs:short-error", "fault_runs:short-nil-error",
 			"offline:records_judged", "offline:bases_complete", "covered:header", "covered:weights", "covered:trailer",
 			"sampled:fault_runs:permanent", "sampled:fault_runs:transient", "sampled:fault_runs:short-error", "sampled:fault_runs:short-nil-error", "offline:sampled:records_judged",
-			"wtype_bases", "offline:wtype:records_judged", "wtype:fault-free:os.File", "wtype:fault-free:bytes.Buffer", "wtype:pipe_runs", "wtype:fault_runs:bufio:permanent", "wtype:fault_runs:stringwriter:transient",
+			"wtype_bases", "offline:wtype:records_judged", "wtype:fault-free:os.File", "wtype:fault-free:bytes.Buffer", "wtype:pipe_runs", "wtype:os:refusing_writer:file-opened-read-only", "wtype:os:refusing_writer:os.Pipe-whose-read-end-is-closed", "wtype:os:accepting_writer:os.Pipe-with-a-reader", "wtype:fault_runs:bufio:permanent", "wtype:fault_runs:stringwriter:transient",
 			"seq:healthy_calls_checked", "seq:calls:weights-panic:after-start", "seq:calls:healthy:after-transient", "seq:concatenations_on_one_bytes.Buffer",
 			// the space of failing-Write behaviours: a failed write with a FULL count at the header, inside the weight section and at the trailer (the very last write), once and for good
 			"fault_runs:full-error-dropped", "fault_runs:full-error-dropped-permanent", "fault_runs:full-error-kept", "fault_runs:one-error", "fault_runs:allbut1-error", "fault_runs:transient-burst3",
